@@ -64,6 +64,15 @@ def generate(rng, tier):
     for _ in range(2 if tier == "quick" else 8):
         cases.append({"op": "transitions", "f": "f64", "target": {"kind": "gaussprec", "d": 1, "prec": [fb(2.0 ** -20)]},
                       "init": [fb(0.0)], "accept": 0.8, "seed": str(rng.getrandbits(64)), "runs": [[2, 0]], "force_eps": fb(1.0)})
+    # a chain restarted elsewhere between two runs (its position is a public field): the next transition must use the
+    # log-density and gradient of the NEW position
+    for _ in range(8 if tier == "quick" else 60):
+        f = rng.choice(["f32", "f64"])
+        d = rng.randint(1, 4)
+        cases.append({"op": "transitions", "f": f, "target": {"kind": "gaussprec", "d": d, "prec": rand_prec(rng, d)},
+                      "init": [fb(round(rng.uniform(-1.5, 1.5), 2)) for _ in range(d)], "accept": 0.8, "seed": str(rng.getrandbits(64)),
+                      "runs": [[rng.randint(2, 3), rng.randint(0, 2)], [rng.randint(2, 3), 0]],
+                      "reposition": [None, [fb(round(rng.uniform(-2.5, 2.5), 2)) for _ in range(d)]]})
     while len(cases) < n_cases:
         f = rng.choice(["f32", "f32", "f64"])
         tg, dim = gen_target(rng) if rng.random() < 0.85 else nan_target(rng)
